@@ -138,6 +138,10 @@ class _P:
                 args.append(T("lit", name=self.next()))
             elif tok in ("true", "false"):
                 args.append(T("lit", name=self.next()))
+            elif tok == "&":
+                # pointer-to-member / address constant as template argument: &Class::member
+                self.next()
+                args.append(T("lit", name="&" + self.parse_name().name))
             else:
                 args.append(self.parse_type())
             tok = self.next()
@@ -306,6 +310,7 @@ class TypeMap:
         self.opt_insts = {}  # tag -> ctype
         self.map_insts = {}  # tag -> (k,v)
         self.set_insts = {}  # tag -> k
+        self.ilist_insts = {}  # tag -> (elem ctype, hook member name)   boost::intrusive::list
         self.used_structs = []  # ordered list of struct tags referenced
 
     def learn(self, sugar, desugared):
@@ -340,7 +345,31 @@ class TypeMap:
 
     def is_seq(self, t):
         t = self.resolve(strip_ref(t))
-        return t.kind == "named" and t.last in SEQS and bool(t.args)
+        return t.kind == "named" and t.last in SEQS and bool(t.args) and not is_intrusive(t)
+
+    def ilist_parts(self, t):
+        """(element type T, hook member name) of boost::intrusive::list<T, member_hook<T, H, &T::m>>,
+        list_impl<mhtraits<T, H, &T::m>, ...> or list_iterator<mhtraits<T, H, &T::m>, const?>; None otherwise"""
+        if t.kind != "named" or not is_intrusive(t) or not t.args:
+            return None
+        tr = None
+        if t.last == "list" and len(t.args) >= 2:
+            tr = t.args[1]
+        elif t.last in ("list_impl", "list_iterator"):
+            tr = t.args[0]
+        if tr is None or tr.kind != "named" or tr.last not in ("member_hook", "mhtraits") or len(tr.args) != 3 or \
+                tr.args[2].kind != "lit" or not tr.args[2].name.startswith("&"):
+            raise Unsupported("boost::intrusive list without a member_hook option: %r" % t)
+        return tr.args[0], tr.args[2].name.split("::")[-1]
+
+    def ilist_ctype(self, t):
+        elem, hook = self.ilist_parts(t)
+        e = self.c(elem)
+        if not e.startswith("struct "):
+            raise Unsupported("intrusive list of non-class %s" % e)
+        tg = self.tag(e) + "__" + hook
+        self.ilist_insts.setdefault(tg, (e, hook))
+        return "struct vf_ilist_" + tg, e
 
     def is_smart_ptr(self, t):
         t = self.resolve(strip_ref(t))
@@ -380,6 +409,16 @@ class TypeMap:
             return "vf_str"
         if last in SMART_PTRS and t.args:
             return self.c(t.args[0]) + "*"
+        if is_intrusive(t):
+            # boost::intrusive::list (member hooks): ordered array of element pointers + "linked" flag in the hook
+            if last in ("list", "list_impl") and t.args:
+                return self.ilist_ctype(t)[0]
+            if last == "list_iterator" and t.args:
+                return self.ilist_ctype(t)[1] + "**"
+            if last in ("list_member_hook", "generic_hook"):
+                self.need_ihook = True
+                return "struct vf_ihook"
+            raise Unsupported("boost::intrusive entity %s" % name)
         if last in SEQS and t.args:
             e = self.c(t.args[0])
             tg = self.tag(e)
@@ -480,6 +519,10 @@ class TypeMap:
         if not c.startswith("struct "):
             raise Unsupported("not a class type: %r -> %s" % (t, c))
         return c[len("struct "):]
+
+
+def is_intrusive(t):
+    return t.kind == "named" and bool(t.name) and t.name.startswith("boost::intrusive::")
 
 
 def first_targ(s):
